@@ -37,7 +37,7 @@ def snapshot():
   return out
 
 
-def c16_fault(fault: int, pos: int, depth: int, lead: int, amb: bool, locked: bool,
+def c16_fault(cont: bool, fault: int, pos: int, depth: int, lead: int, amb: bool, locked: bool,
               v0: int, v1: int, v2: int) -> bool:
   """
   pre: 0 <= fault < 16 and 0 <= pos < 4 and 0 <= depth < 3 and 0 <= lead < 3
@@ -47,31 +47,49 @@ def c16_fault(fault: int, pos: int, depth: int, lead: int, amb: bool, locked: bo
   pos = rt.pick(pos, 4)
   depth = rt.pick(depth, 3)
   lead = rt.pick(lead, 3)
-  amb, locked = rt.flag(amb), rt.flag(locked)
+  amb, locked, cont = rt.flag(amb), rt.flag(locked), rt.flag(cont)
   flines, errline, exc_cls, is_syntax = FAULTS[fault]
+  if cont:
+    # a backslash continuation right after the key / keyword: the statement still BEGINS on the first line
+    if len(flines) != 1 or ' = ' not in flines[0] and not flines[0].startswith(('include', 'import')):
+      if flines:
+        rt.discard()
+    if flines and is_syntax:
+      rt.discard()
   if not flines and pos:
     rt.discard()
-  rt.sig(('fault', fault, pos, depth, lead, amb, locked), nontrivial=bool(flines))
+  rt.sig(('fault', cont, fault, pos, depth, lead, amb, locked), nontrivial=bool(flines))
   for name, v in (('V0', v0), ('V1', v1), ('V2', v2)):
     gin.constant('vwc.' + name, v)
   with rt.native():
     # ---- build the innermost text: 3 good statements with the fault at `pos` -----
     body = [['', '# leading comment'][i % 2] for i in range(lead)]
     stmt_line = {}
+    def split_after_key(line):
+      if not cont:
+        return [line]
+      if ' = ' in line:
+        k, v = line.split(' = ', 1)
+        return [k + ' \\', '    = ' + v]
+      k, v = line.split(' ', 1)
+      return [k + ' \\', '    ' + v]
     for i in range(4):
       if i == pos and flines:
         stmt_line['fault'] = len(body) + 1
-        body.extend(flines)
+        body.extend(split_after_key(flines[0]) if len(flines) == 1 else flines)
       if i < 3:
         stmt_line[i] = len(body) + 1
-        body.append(GOOD[i])
+        body.extend(split_after_key(GOOD[i]))
     inner_text = '\n'.join(body) + '\n'
     files = {}
     texts = {depth: inner_text}
     inc_line = {}
     for d in range(depth - 1, -1, -1):
       # outer file: one statement before the include, one after it
-      texts[d] = "vw.kws.pre%d = %d\n\ninclude '%s'\nvw.kws.post%d = 1\n" % (d, d, FILES[d + 1], d)
+      if cont:
+        texts[d] = "vw.kws.pre%d = %d\n\ninclude \\\n    '%s'\nvw.kws.post%d = 1\n" % (d, d, FILES[d + 1], d)
+      else:
+        texts[d] = "vw.kws.pre%d = %d\n\ninclude '%s'\nvw.kws.post%d = 1\n" % (d, d, FILES[d + 1], d)
       inc_line[d] = 3
     for d in range(1, depth + 1):
       files[FILES[d]] = texts[d]
@@ -212,10 +230,10 @@ HARNESSES = {
         fn='c16_fault',
         anchors=['gin.config:parse_config', 'gin.config:parse_config_file', 'gin.utils:try_with_location',
                  'gin.utils:augment_exception_message_and_reraise', 'gin.config:_parse_scope'],
-        smoke=[dict(fault=4, pos=2, depth=2, lead=1, amb=True, locked=True, v0=1, v1=2, v2=3),
-               dict(fault=0, pos=1, depth=1, lead=2, amb=False, locked=False, v0=1, v1=2, v2=3),
-               dict(fault=15, pos=0, depth=2, lead=0, amb=False, locked=False, v0=1, v1=2, v2=3),
-               dict(fault=10, pos=3, depth=0, lead=0, amb=False, locked=False, v0=1, v1=2, v2=3)],
+        smoke=[dict(cont=False, fault=4, pos=2, depth=2, lead=1, amb=True, locked=True, v0=1, v1=2, v2=3),
+               dict(cont=False, fault=0, pos=1, depth=1, lead=2, amb=False, locked=False, v0=1, v1=2, v2=3),
+               dict(cont=True, fault=15, pos=0, depth=2, lead=0, amb=False, locked=False, v0=1, v1=2, v2=3),
+               dict(cont=True, fault=5, pos=3, depth=0, lead=0, amb=False, locked=False, v0=1, v1=2, v2=3)],
         tiers={'quick': dict(split=dict(fault=list(range(NFAULT)), depth=[0, 1, 2]),
                              fixed=dict(lead=1), budget_s=100),
                'thorough': dict(split=dict(fault=list(range(NFAULT)), depth=[0, 1, 2], lead=[0, 1, 2]),
@@ -224,7 +242,7 @@ HARNESSES = {
                'unbalanced bracket, bad selector, unknown parameter / configurable / reference (on the 2nd line of its '
                'value), deny-listed parameter, bad include, bad import, semantically / syntactically bad block member, '
                'block of an unknown configurable, a bad member between / before duplicate members of one block) at position 0-3, include depth 0-2, 0-2 leading blank/comment '
-               'lines, with/without an ambient scope, with/without a finalized config re-opened by unlock_config'),
+               'lines, statements optionally written with a backslash continuation between the key / keyword and the rest, with/without an ambient scope, with/without a finalized config re-opened by unlock_config'),
 }
 ASSUMPTIONS = ['the binding store is read through get_bindings(inherit_scopes=False) over the keys of the private '
                'gin.config._CONFIG; the parse-context depth through the private _PARSE_CONTEXTS',
